@@ -70,6 +70,7 @@ func Any(t types.Type, v V) V { return absint.Iface{T: t, V: v} }
 // Schema builds a *schemas.Schema whose root object is root (a *schemas.Type pointer).
 func (g *G) Schema(root V, id absint.Str, title absint.Str, defs V) V {
 	fields := map[string]V{"ID": id}
+	_ = title // the title lives on the root type (Schema embeds *ObjectAsType)
 	if root != nil {
 		fields["ObjectAsType"] = root // *ObjectAsType has the same representation as *Type
 	}
